@@ -84,6 +84,10 @@ func vc12Gen(seeds []c12h.Seed, rng *vh.Rng, thorough bool) []c12h.Input {
 			}
 			for _, o := range []uint64{0, off + 1, off - 1, L - 1, L, L + 1, L - size, L - size + 1, 1 << 40, 1 << 63, 1<<64 - 1} {
 				ins = append(ins, c12h.Input{Entry: "readwithsize", Label: "offset", Data: s.Data, Aux: []uint64{o, size}})
+				if r == 0 { // offset and size both inconsistent with the file
+					ins = append(ins, c12h.Input{Entry: "readwithsize", Label: "offset+size", Data: s.Data, Aux: []uint64{o, 1<<28 - 1}})
+					ins = append(ins, c12h.Input{Entry: "readwithsize", Label: "offset+size", Data: s.Data, Aux: []uint64{o, L}})
+				}
 				ins = append(ins, c12h.Input{Entry: "read", Label: "offset", Data: s.Data, Aux: []uint64{o}})
 			}
 			// the record's own length prefix ...
@@ -185,6 +189,6 @@ func TestVerif_C12(t *testing.T) {
 		CoqChecker: func(f map[string]bool) string {
 			return "(check_ll " + vh.CoqBool(f["g_ll_size"]) + " " + vh.CoqBool(f["g_ll_bound"]) + ")"
 		},
-		CoqCase: vc12CoqCase, MaxCoq: 1500,
+		CoqCase: vc12CoqCase, MaxCoq: 500,
 	})
 }
